@@ -35,10 +35,12 @@ def props_of(b):
                 out.add("C19" if ev.get("id") == 2 else "C03")
         if w in ("base", "baseSet", "cap", "gen"):
             out.add("C16" if ev.get("id") == 1 else "C15")
-    if ev.get("id") == 1 or ev.get("after") in ("append", "clone"):
+    if ev.get("id") == 1 or ev.get("after") in ("append", "clone", "preappend"):
         out.add("C16")
     if ev.get("id") == 2:
         out.add("C19")
+    if k == "call" and ev.get("refused") and not any(w.startswith("refused_") for w in why):
+        out.add("C19")   # "refused as a whole, leaving bytes, length, PC and labels exactly as they were"
     if not out:
         out.add("C03")
     return out
@@ -169,6 +171,25 @@ def run(prop, tier, replay):
             raise Infra("self-check: deviation %s not caught by %s (got %s)" % (dev, expect, r.violated))
         ck.add_part("self-check deviation " + dev, kind="tlc", violated=r.violated)
 
+    if prop == "C03":
+        # exhaustive operand sweep of the real methods against the table exported from Emitter.tla
+        import tempfile
+        tf = tempfile.NamedTemporaryFile("w", suffix=".json", delete=False)
+        json.dump(tbl[0], tf)
+        tf.close()
+        try:
+            out, _ = run_vh(vh, ["emitsweep", tf.name, tier], timeout=5000)
+        finally:
+            os.unlink(tf.name)
+        sw = json.loads(out)
+        ck.add_part("operand sweep of every emitting method against the TLC-exported table", kind="impl",
+                    calls=sw["calls"], methods=sw["methods"], mismatches=sw["mismatches"])
+        for m in sw.get("examples") or []:
+            ck.violation("method %s(%#x) under widths M8=%d X8=%d: %s: emitted %s, canonical encoding %s" % (
+                m["m"], m["arg"], m["widths"] >> 1, m["widths"] & 1, m["what"], m["got"], m["want"]), m)
+        ck.cov["evaluations"] += sw["calls"]
+        ck.cov["distinct_nontrivial"] += sw["calls"]
+
     nchunks = 8 if not thorough else 16
     total_ev = 0
     total_sc = 0
@@ -202,7 +223,7 @@ def run(prop, tier, replay):
                 s = {k: e[k] for k in e if k in ("k", "m", "a", "refused", "bytes", "err", "which", "fetches", "pri", "id", "n", "addr", "flags")}
                 ck.sample(s)
     ck.cov["traces_validated_against_impl"] = total_sc
-    ck.cov["evaluations"] = total_ev
-    ck.cov["distinct_nontrivial"] = total_ev
+    ck.cov["evaluations"] += total_ev
+    ck.cov["distinct_nontrivial"] += total_ev
     ck.cov["rule"] = "seeded random scenarios on real emitters (profiles %s), one validated event per call" % [p[0] for p in PROFILES[prop]]
     return ck.finish()
